@@ -14,8 +14,8 @@ EXTENDS BasicMachine, Json, IOUtils
 
 Rec == ndJsonDeserialize(IOEnv.TRACE)
 
-VARIABLES ci, l, m, ph, nint, hi
-tvars == <<ci, l, m, ph, nint, hi>>
+VARIABLES ci, l, m, ph, nint, hi, loose
+tvars == <<ci, l, m, ph, nint, hi, loose>>
 
 \* the sessions are validated in independent chunks so that TLC's workers share the load
 Chunk == IF "CHUNK" \in DOMAIN IOEnv THEN atoi(IOEnv.CHUNK) ELSE 100000000
@@ -47,20 +47,24 @@ FrameOK(f, g) ==
   /\ f.k = g.k
   /\ (f.ln = g.ln \/ f.ln = Direct)
   /\ f.k = "for" => f.key = Key(g.l, g.id, g.sfx, <<>>) /\ f.lim = g.lim /\ f.step = g.step
-ProbeOK(mm, pr) ==
-  /\ {<<k, mm.vars[k]>> : k \in DOMAIN mm.vars}
-       = {<<Key(x.l, x.id, x.sfx, x.sub), x.v>> : x \in Range(pr.vars)}
-  /\ {<<a, mm.dims[a]>> : a \in DOMAIN mm.dims} = {<<ArrId(x.id, x.sfx), x.b>> : x \in Range(pr.dims)}
+\* lo (loose): an interrupt landed inside a statement of the running program and the program
+\* has not been continued yet: the store and the frames are those of a statement in progress
+\* (the abstract machine interrupts at statement boundaries), so only what a statement in
+\* progress cannot disturb is compared; everything is compared again after CONT / RUN.
+ProbeOK(mm, pr, lo) ==
+  /\ lo \/ {<<k, mm.vars[k]>> : k \in DOMAIN mm.vars}
+             = {<<Key(x.l, x.id, x.sfx, x.sub), x.v>> : x \in Range(pr.vars)}
+  /\ lo \/ {<<a, mm.dims[a]>> : a \in DOMAIN mm.dims} = {<<ArrId(x.id, x.sfx), x.b>> : x \in Range(pr.dims)}
   /\ \A c \in Letters : mm.deft[c] = pr.deft[LetterIdx[c]]
   /\ DOMAIN mm.fns = {x.id : x \in Range(pr.fns)}
   /\ mm.tron = pr.tron
   /\ mm.mode = "ready" => mm.col = 0 /\ pr.col = 0
-  /\ ~HadError(mm.resp) =>
+  /\ (~HadError(mm.resp) /\ ~lo) =>
        /\ mm.dptr = pr.dptr
        /\ ~mm.ctlx =>
             /\ Len(mm.ctl) = Len(pr.frames) /\ \A i \in 1..Len(mm.ctl) : FrameOK(mm.ctl[i], pr.frames[i])
             /\ pr.junk = (IF mm.mode = "input" THEN 3 ELSE 0)
-       /\ (mm.mode = "ready" /\ ~mm.contx) => ((mm.cont # NoCont) = pr.cancont)
+  /\ (~HadError(mm.resp) /\ mm.mode = "ready" /\ ~mm.contx) => ((mm.cont # NoCont) = pr.cancont)
 
 OutSoFar(mm) == IF mm.resp # <<>> /\ mm.resp[Len(mm.resp)].k = "out" THEN mm.resp[Len(mm.resp)].s ELSE <<>>
 NOuts(mm) == Cardinality({i \in 1..Len(mm.resp) : mm.resp[i].k = "out"})
@@ -72,47 +76,68 @@ Apply(mm, c) ==
     [] c.k = "int"    -> Interrupt([mm EXCEPT !.resp = <<>>])
 
 Init == /\ ci \in ChunkStarts /\ hi = (IF ci + Chunk - 1 < Len(Rec) THEN ci + Chunk - 1 ELSE Len(Rec))
-        /\ l = 1 /\ m = InitM /\ ph = "feed" /\ nint = 0
+        /\ l = 1 /\ m = InitM /\ ph = "feed" /\ nint = 0 /\ loose = FALSE
 
+\* commands after which the interpreter is at a statement boundary again
+Resyncs(c) == \/ c.k = "line"
+              \/ c.k = "direct" /\ \E i \in 1..Len(c.stmts) : c.stmts[i].k \in {"cont", "run", "clear", "new"}
 Feed == /\ ph = "feed" /\ ci <= hi /\ l <= Len(Case.cmds)
-        /\ m' = Apply(m, Cur.cmd) /\ ph' = "run" /\ nint' = 0 /\ UNCHANGED <<ci, l, hi>>
+        /\ m' = Apply(m, Cur.cmd) /\ ph' = "run" /\ nint' = 0
+        /\ loose' = (loose /\ ~Resyncs(Cur.cmd))
+        /\ UNCHANGED <<ci, l, hi>>
 
 Run  == /\ ph = "run" /\ m.mode = "run"
-        /\ m' = Step(m) /\ UNCHANGED <<ci, l, ph, nint, hi>>
+        /\ m' = Step(m) /\ UNCHANGED <<ci, l, ph, nint, hi, loose>>
+
+\* The interrupt landed between two opcodes of the statement about to be executed (or exactly
+\* before it): the line is that statement's line, and every variable holds either its value
+\* before the statement or its value after it.
+ValAt(mm, k) == IF k \in DOMAIN mm.vars THEN <<mm.vars[k]>> ELSE <<>>
+IntrPin(mm, pr) ==
+  LET p == Resolve(mm, mm.pc)
+      nx == Step(mm)
+      obs == [k \in {Key(x.l, x.id, x.sfx, x.sub) : x \in Range(pr.vars)} |->
+                (CHOOSE x \in Range(pr.vars) : Key(x.l, x.id, x.sfx, x.sub) = k).v]
+  IN  /\ (pr.line >= 0 /\ p.ln # PastEnd) => p.ln = pr.line
+      /\ \A k \in DOMAIN obs \cup DOMAIN mm.vars \cup DOMAIN nx.vars :
+            (IF k \in DOMAIN obs THEN <<obs[k]>> ELSE <<>>) \in {ValAt(mm, k), ValAt(nx, k)}
 
 \* an interrupt delivered while the command was executing: after exactly the recorded output
 Intr == /\ ph = "run" /\ m.mode = "run" /\ nint < Cur.ints
         /\ OutSoFar(m) = Cur.intpre
-        /\ m' = Interrupt(m) /\ nint' = nint + 1 /\ UNCHANGED <<ci, l, ph, hi>>
+        /\ IntrPin(m, Cur.intprobe)
+        /\ m' = Interrupt(m) /\ nint' = nint + 1
+        /\ loose' = (loose \/ m'.cont # NoCont)
+        /\ UNCHANGED <<ci, l, ph, hi>>
 
 AtWait == ph = "run" /\ m.mode \in {"ready", "input"}
-Good  == nint = Cur.ints /\ RespOK(m.resp, Cur.resp) /\ ProbeOK(m, Cur.probe)
+Good  == nint = Cur.ints /\ RespOK(m.resp, Cur.resp) /\ ProbeOK(m, Cur.probe, loose)
 
 Match == /\ AtWait /\ Good
-         /\ l' = l + 1 /\ ph' = "feed" /\ UNCHANGED <<ci, m, nint, hi>>
+         /\ l' = l + 1 /\ ph' = "feed" /\ UNCHANGED <<ci, m, nint, hi, loose>>
 
 NextCase == /\ ph = "feed" /\ ci <= hi /\ l > Len(Case.cmds)
             /\ PrintT(ToJson([T |-> "ACCEPT", id |-> Case.id]))
-            /\ ci' = ci + 1 /\ l' = 1 /\ m' = InitM /\ ph' = "feed" /\ nint' = 0 /\ UNCHANGED hi
+            /\ ci' = ci + 1 /\ l' = 1 /\ m' = InitM /\ ph' = "feed" /\ nint' = 0 /\ loose' = FALSE /\ UNCHANGED hi
 
 \* this branch cannot explain the trace: say why, and go on with the next session
 Stuck == /\ AtWait /\ ~Good
          /\ PrintT(ToJson([T |-> "STUCK", id |-> Case.id, l |-> l, resp |-> m.resp,
-                      respok |-> RespOK(m.resp, Cur.resp), nint |-> nint,
+                      respok |-> RespOK(m.resp, Cur.resp), nint |-> nint, loose |-> loose,
                       vars |-> {<<k, m.vars[k]>> : k \in DOMAIN m.vars},
                       ctl |-> m.ctl, dims |-> {<<a, m.dims[a]>> : a \in DOMAIN m.dims},
                       dptr |-> m.dptr, cont |-> m.cont, contx |-> m.contx, mode |-> m.mode,
                       col |-> m.col, tron |-> m.tron, fns |-> DOMAIN m.fns]))
-         /\ ci' = ci + 1 /\ l' = 1 /\ m' = InitM /\ ph' = "feed" /\ nint' = 0 /\ UNCHANGED hi
+         /\ ci' = ci + 1 /\ l' = 1 /\ m' = InitM /\ ph' = "feed" /\ nint' = 0 /\ loose' = FALSE /\ UNCHANGED hi
 
 \* the session left the fragment the model defines: discard it (counted, never failed)
 Discard == /\ ph = "run" /\ m.mode = "oom"
            /\ PrintT(ToJson([T |-> "SKIP", id |-> Case.id, l |-> l, why |-> m.why]))
-           /\ ci' = ci + 1 /\ l' = 1 /\ m' = InitM /\ ph' = "feed" /\ nint' = 0 /\ UNCHANGED hi
+           /\ ci' = ci + 1 /\ l' = 1 /\ m' = InitM /\ ph' = "feed" /\ nint' = 0 /\ loose' = FALSE /\ UNCHANGED hi
 
 \* fingerprint only what is not a function of the commands consumed so far (the listing and its
 \* analysis are determined by ci and l)
-View == <<ci, l, ph, nint, hi, m.mode, m.pc, m.vars, m.dims, m.deft, m.fns, m.ctl, m.dptr, m.col,
+View == <<ci, l, ph, nint, hi, loose, m.mode, m.pc, m.vars, m.dims, m.deft, m.fns, m.ctl, m.dptr, m.col,
           m.tron, m.ltr, m.cont, m.contx, m.ctlx, m.inp, m.resp>>
 
 Next == Feed \/ Run \/ Intr \/ Match \/ NextCase \/ Stuck \/ Discard
